@@ -35,9 +35,9 @@ let snap () =
       (hex_of_fr g.q_m) (hex_of_fr g.q_l) (hex_of_fr g.q_r) (hex_of_fr g.q_o)
       (hex_of_fr g.q_f) (hex_of_fr g.q_c) (hex_of_fr g.q_arith) (hex_of_fr g.q_range)
       (hex_of_fr g.q_logic) (hex_of_fr g.q_fixed) (hex_of_fr g.q_var)
-      (int_of_nat g.w_a) (int_of_nat g.w_b) (int_of_nat g.w_c) (int_of_nat g.w_d)) s.gates;
+      (int_of_nat g.w_a) (int_of_nat g.w_b) (int_of_nat g.w_c) (int_of_nat g.w_d)) (List.map fst s.rows);
   List.iter (fun (i, v) -> Printf.printf "P %d %s\n" (int_of_nat i) (hex_of_fr v))
-    (List.sort (fun (a, _) (b, _) -> compare (int_of_nat a) (int_of_nat b)) s.pis);
+    (pis s);
   List.iteri (fun i v -> Printf.printf "W %d %s\n" i (hex_of_fr v)) s.wits
 
 (* satisfaction of the current gates under the current witness values *)
@@ -45,7 +45,7 @@ let sat () =
   let s = !st in
   let arr = Array.of_list s.wits in
   let asg w = let i = int_of_nat w in if i < Array.length arr then arr.(i) else fzero in
-  match first_bad s.gates s.pis asg with
+  match first_bad s.rows asg with
   | None -> Printf.printf "SAT ok\n"
   | Some i -> Printf.printf "SAT bad %d\n" (int_of_nat i)
 
